@@ -31,11 +31,17 @@ Definition v_of_state_lim (limit : Z) (s : cstate) : V :=
   let '(a, b) := adler (data s) in
   VL [VI (s_n s); VL (map v_of_entry (mem s)); VL (map v_of_entry (tab s)); VL [VI (-1); VI (zlength (data s)); VI a; VI b]].
 
-(* block: [ty; fmt; size; payload option (VL [] | VL [VL bytes]); errcode; cdate; mdate] *)
+(* block: [ty; fmt; size; payload option (VL [] | VL [VL bytes]); errcode; cdate; mdate]
+   a date is  VI d  (handed to the block)  or  VL [VI clock]  (never given: the clock at construction) *)
+Definition date_given (v : V) : option Z := match v with VI d => Some d | VL _ => None end.
+Definition date_clock (v : V) : Z := match v with VL [c] => vint c | _ => 0 end.
 Definition blk_of_v (v : V) : blk :=
-  mkB (vint (vnth 0 v)) (vint (vnth 1 v)) (vint (vnth 2 v))
-      (match vnth 3 v with VL [p] => Some (zs_of p) | _ => None end)
-      (err_of_code (vint (vnth 4 v))) (vint (vnth 5 v)) (vint (vnth 6 v)).
+  let b := mkB (vint (vnth 0 v)) (vint (vnth 1 v)) (vint (vnth 2 v))
+               (match vnth 3 v with VL [p] => Some (zs_of p) | _ => None end)
+               (err_of_code (vint (vnth 4 v))) 0 0 in
+  mkB (b_type b) (b_format b) (b_size b) (b_payload b) (b_err b)
+      (init_date (date_given (vnth 5 v)) (date_clock (vnth 5 v)))
+      (init_date (date_given (vnth 6 v)) (date_clock (vnth 6 v))).
 
 Definition opt_comment (v : V) : option (list Z) :=
   match v with VL [c] => Some (zs_of c) | _ => None end.
@@ -138,7 +144,7 @@ Definition run_fs (arg : V) : V :=
   if k =? 3 then of_result vints (fs_open f (vint (vnth 2 arg))) else
   fail EOther.
 
-(* access-mode call sequences (C08): [[1] | [2] | [3] | [4] | [5; kind(0 MWrite,1 MSetD3,2 MSet); valid] | [6; rkind(0 RAuto,1 RPlain,2 REq)] | [7] copy-switch | [8] clobber | [9] restore ...]
+(* access-mode call sequences (C08): [[1] | [2] | [3] | [4] | [5; kind(0 MWrite,1 MSetD3,2 MSet); valid] | [6; rkind(0 RAuto,1 RPlain,2 REq,3 REqBad)] | [7] copy-switch | [8] clobber | [9] restore ...]
    -> per call [raised; disk writes so far; handle (0 none, 1 open rb, 2 open r+b, 3 closed); inside] *)
 Definition acall_of_v (v : V) : acall :=
   let k := vint (vnth 0 v) in
@@ -146,7 +152,7 @@ Definition acall_of_v (v : V) : acall :=
   if k =? 4 then ExitExn else
   if k =? 5 then Mutator (if vint (vnth 1 v) =? 0 then MWrite else if vint (vnth 1 v) =? 1 then MSetD3 else MSet) (vint (vnth 2 v) =? 1) else
   if k =? 7 then CopySwitch else if k =? 8 then Clobber else if k =? 9 then Restore else
-  Reader (if vint (vnth 1 v) =? 0 then RAuto else if vint (vnth 1 v) =? 1 then RPlain else REq).
+  Reader (if vint (vnth 1 v) =? 0 then RAuto else if vint (vnth 1 v) =? 1 then RPlain else if vint (vnth 1 v) =? 2 then REq else REqBad).
 Definition handle_code (h : handle) : Z :=
   match h with HNone => 0 | HOpen RB => 1 | HOpen RWB => 2 | HClosed => 3 end.
 Fixpoint acc_run (s : astate) (cs : list V) : list V :=
